@@ -112,6 +112,7 @@ type c11Stmt struct {
 	Renamed  map[string]string // identifier renaming applied to the base statement (nil: neutral names)
 	WithFirst bool             // WITH (...) written before HAVING (the repository's own tests write both orders)
 	WinFirst  bool             // GROUP BY <window>, <column>: the list ends in a plain column
+	WithRev   bool             // the WITH options written in the reverse order (TIMEUNIT before TIMESTAMP)
 }
 
 func (s c11Stmt) parts() []string {
@@ -143,10 +144,14 @@ func (s c11Stmt) parts() []string {
 	if s.Having != "" && !s.WithFirst {
 		p = append(p, "HAVING", s.Having)
 	}
-	switch s.With {
-	case 1:
+	switch {
+	case s.With == 1 && s.WithRev:
+		p = append(p, "WITH", "(TIMEUNIT='ms', TIMESTAMP='ts')")
+	case s.With == 2 && s.WithRev:
+		p = append(p, "WITH", "(IDLETIMEOUT='5s', ALLOWEDLATENESS='2s', MAXOUTOFORDERNESS='1s', TIMEUNIT='ms', TIMESTAMP='ts')")
+	case s.With == 1:
 		p = append(p, "WITH", "(TIMESTAMP='ts', TIMEUNIT='ms')")
-	case 2:
+	case s.With == 2:
 		p = append(p, "WITH", "(TIMESTAMP='ts', TIMEUNIT='ms', MAXOUTOFORDERNESS='1s', ALLOWEDLATENESS='2s', IDLETIMEOUT='5s')")
 	}
 	if s.Having != "" && s.WithFirst {
@@ -459,6 +464,14 @@ func c11Stmts(tier string) []c11Stmt {
 		if out[i].Window != "" && out[i].Window != "global" && out[i].Group != "" && (i%2 == 0 || (out[i].Having == "" && out[i].With == 0)) {
 			v := out[i]
 			v.WinFirst = true
+			out = append(out, v)
+		}
+	}
+	// option order inside WITH (...): the options are a set
+	for i, n := 0, len(out); i < n; i++ {
+		if out[i].With > 0 && i%2 == 1 {
+			v := out[i]
+			v.WithRev = true
 			out = append(out, v)
 		}
 	}
@@ -1074,7 +1087,7 @@ func c11RunMatches(a *acc) {
 
 func c11Shape(s c11Stmt) string {
 	hostile := strings.Contains(s.Where, "'LIMIT") || strings.Contains(s.Where, "'ORDER") || strings.Contains(s.Where, "WHERE b") || strings.Contains(s.Where, "'FROM") || strings.Contains(s.Where, "'GROUP")
-	return fmt.Sprintf("window=%s|having=%v|with=%d|order=%d|limit=%v|join=%v|keyword-in-literal=%v", s.Window, s.Having != "", s.With, len(s.Order), s.Limit > 0, s.Join != "", hostile)
+	return fmt.Sprintf("window=%s|having=%v|with=%d%s|order=%d|limit=%v|join=%v|keyword-in-literal=%v", s.Window, s.Having != "", s.With, map[bool]string{true: "-reversed"}[s.WithRev], len(s.Order), s.Limit > 0, s.Join != "", hostile)
 }
 
 func (c11) Describe(tier string) fw.Description {
